@@ -11,7 +11,7 @@ use crate::subject;
 use serde_json::{json, Value};
 use xml_schema_generator::{Element, Options, SortBy};
 
-const DERIVES: &[&str] = &["Serialize, Deserialize", "", "Debug", "Clone, Debug, PartialEq, serde::Deserialize", "  spaced ,Odd  ", "Debug, Clone, Debug, PartialEq", "Debug,Clone", " "];
+const DERIVES: &[&str] = &["Serialize, Deserialize", "", "Debug", "Clone, Debug, PartialEq, serde::Deserialize", "  spaced ,Odd  ", "Debug, Clone, Debug, PartialEq", "Debug,Clone", " ", "Clone, Debug, Default, Eq, Hash, Ord, PartialEq, PartialOrd, serde::Serialize, serde::Deserialize, SomeOtherCrate::WithAVeryLongName"];
 const PREFIXES: &[&str] = &["@", "", "attr_", "@@", "a"];
 const TEXTS: &[&str] = &["$text", "$value", "text", "#text"];
 
@@ -232,16 +232,19 @@ pub fn run(ctx: &Ctx) {
         .collect();
     let subs = subsets(names.len(), 2);
     let params = TreeParams { min_nodes: 0, max_nodes: 3, max_decorated: ctx.tier.pick(1, 2), root_from_subset: false, shard: (0, 1) };
+    let params4 = TreeParams { min_nodes: 4, max_nodes: 4, max_decorated: 0, root_from_subset: false, shard: (0, 1) };
     let res2 = par_for(
-        subs.len() as u64,
+        subs.len() as u64 * 2,
         ctx.threads,
         1,
         Some(ctx.deadline),
         |_| (0u64, 0u64),
-        |acc, si| {
+        |acc, unit| {
+            let si = unit / 2;
+            let params = if unit % 2 == 0 { &params } else { &params4 };
             let subset: Vec<PoolName> = subs[si as usize].iter().map(|&i| names[i]).collect();
             let mut local = 0u64;
-            for_each_tree(&subset, &params, &mut |root| {
+            for_each_tree(&subset, params, &mut |root| {
                 local += 1;
                 let d = DocEntry::from_root(root.clone());
                 if let Ok(el) = run_history(&[&d]) {
@@ -265,7 +268,7 @@ pub fn run(ctx: &Ctx) {
     ctx.set("named_trees", json!({"names": names.iter().map(|n| n.name).collect::<Vec<_>>(), "subsets": subs.len(), "subsets_done": res2.processed, "nodes_max": params.max_nodes, "decorated_max": params.max_decorated}));
     ctx.set(
         "rule",
-        json!("for every document: 8 derive strings (incl. a repeated trait, one without spaces and a blank one) x 5 attribute prefixes (one of them a leading substring of attribute names) x 4 text identifiers x 2 sort options, plus the two preset constructors and their derive() builder; each rendering is compared with the rendering under the quick-xml preset with the same sort: same structs, field identifiers, types and order; derive line verbatim on every struct or absent when empty; attribute fields bound to prefix + local name, children to their local name, text to the text identifier; no rename equal to the identifier. evaluations = renderings compared, distinct_nontrivial = distinct documents (trees) each rendered under all tuples"),
+        json!("for every document: 9 derive strings (incl. a repeated trait, one without spaces, a blank one and one of 120 characters) x 5 attribute prefixes (one of them a leading substring of attribute names) x 4 text identifiers x 2 sort options, plus the two preset constructors and their derive() builder; each rendering is compared with the rendering under the quick-xml preset with the same sort: same structs, field identifiers, types and order; derive line verbatim on every struct or absent when empty; attribute fields bound to prefix + local name, children to their local name, text to the text identifier; no rename equal to the identifier. evaluations = renderings compared, distinct_nontrivial = distinct documents (trees) each rendered under all tuples"),
     );
 }
 
